@@ -132,8 +132,8 @@ CHECKS["C11"] = {"run": _blocking_run, "replay": _blocking_replay}
 
 def _codec_finish(prop, tier, fam, t0, rule, assumptions, exhaustive_note):
     mine = [dict(v, key="%s:%s" % (v["mon"], v["cls"]),
-                 detail="%s on %s input %s -> impl %s" % (v["mon"], v["case"].get("kind"), json.dumps(v["case"].get("in", v["case"].get("input")))[:160],
-                                                          json.dumps({k: v["case"].get(k) for k in ("pkts", "end", "rest", "out") if k in v["case"]})[:200]))
+                 detail="%s on %s input %s -> impl %s" % (v["mon"], v["case"].get("kind"), json.dumps(v["case"].get("in", v["case"].get("input", v["case"].get("desc", v["case"].get("scenario")))))[:160],
+                                                          json.dumps({k: v["case"].get(k) for k in ("pkts", "end", "rest", "out", "outcome", "probe", "alive", "exit", "panic_at", "event") if k in v["case"]})[:300]))
             for v in fam["violations"] if v["mon"].startswith(prop + ".")]
     unknown, hits = vlib.split_known(prop, mine)
     mc = fam.get("mc") or {}
@@ -290,6 +290,31 @@ def _c08_run(prop, tier):
 
 
 CHECKS["C08"] = {"run": _c08_run, "replay": _case_replay}
+
+
+def _c16_run(prop, tier):
+    t0 = time.time()
+    fam = fam_codec.hostile_family(tier)
+    for dv in fam.get("divergences", []):
+        print("DIVERGENCE (rig, not a property violation): %s %s" % (dv["mon"], json.dumps(dv["line"])[:200]))
+    return _codec_finish(prop, tier, fam, t0,
+        "case = one hostile input sent on a fresh TCP connection to a real proxy server running in a child process (same wiring as "
+        "src/bin/server_proxy.rs, 2 worker threads), before and after cluster metadata is set, followed by a PING on a second connection; inputs: "
+        "hostile byte strings (array/bulk headers declaring 10^3..2^64 elements with nothing / one element / a few bytes behind them, also nested; "
+        "nesting depth 10..2*10^6; non-command RESP values; inline/HTTP/binary junk; truncated packets; 64 KiB..8 MiB well-formed payloads and "
+        "pipelines) and well-formed commands: every command family x arity 0..4, every (command, argument position, extreme value) over 38 extreme "
+        "values (integer limits +-1, 2^31, 2^32, 2^63, 2^64, NaN, non-UTF-8, empty, protocol fragments), every UMCTL / CLUSTER / CONFIG sub-command "
+        "likewise, EVAL numkeys, blocking timeouts, UMFORWARD counters, SETCLUSTER/SETREPL fields, plus random combinations; recorded per case: "
+        "reply/close/nothing and latency, bystander reply, process alive / exit signal, panics and abort messages on stderr, peak RSS; non-trivial "
+        "iff a byte-level case, a large input, or an outcome other than a plain reply",
+        ["the code under test is built with the dev profile (overflow checks on), as the repository's test suite builds it",
+         "UMCTL SHUTDOWN is excluded (stopping the proxy is that command's purpose)",
+         "time bound used: 4 s + 1.5 s per MiB of input for reply-or-close; 6 s for the bystander PING; memory bound: peak RSS growth <= 64 x input bytes + 32 MiB",
+         "Session.tla is a resource-accounting model of the parse/dispatch path; it is bound to the code by the observable monitors only"],
+        "the enumerated families are complete as listed (every command x position x extreme value); everything else is sampled")
+
+
+CHECKS["C16"] = {"run": _c16_run, "replay": _case_replay}
 
 
 def _c05_run(prop, tier):
